@@ -1290,6 +1290,12 @@ class FuncLowerer:
                 abort('lvalue cast %s' % ck, e)
             if ck == 'BitCast' and ty[0] == 'ptr' and ty[1][0] == 'atomic':
                 ty = ('ptr', ty[1][1])
+            if ck in ('IntegralToPointer', 'PointerToIntegral') and getattr(u.cfg, 'address_model', False):
+                # group option address_model: pointer <-> integer conversions go through the group's address model (VF_P2I / VF_I2P in
+                # spec.h), because cbmc keeps an object number in the top bits of a pointer, where tagged-pointer code keeps its tag
+                if ck == 'PointerToIntegral':
+                    return '((%s)VF_P2I((void *)(%s)))' % (u.ctype(ty), self.expr(sub))
+                return '((%s)VF_I2P((unsigned long)(%s)))' % (u.ctype(ty), self.expr(sub))
             return '((%s)(%s))' % (u.ctype(ty), self.expr(sub))
         if ck == 'LValueBitCast':
             # reinterpret_cast<T&>(x)
